@@ -93,6 +93,72 @@ func TestC07(t *testing.T) {
 			}
 		}
 	}
+	// key usage numbers across the range of the derivation constant (the derived checksum key depends on
+	// the n-fold of the usage number): every one up to 450 (4200 in thorough), the powers of 256, PRNG ones
+	top := uint32(450)
+	if Thorough() {
+		top = 4200
+	}
+	for _, ct := range []int32{15, 16, 12} {
+		et := cksumEtypeSpec(ct)
+		e, err := crypto.GetChksumEtype(ct)
+		if err != nil {
+			continue
+		}
+		var us []uint32
+		for u := uint32(1); u <= top; u++ {
+			if ct == 12 && !Thorough() && u > 64 {
+				break
+			}
+			us = append(us, u)
+		}
+		us = append(us, 4087, 4088, 4095, 4096, 65535, 65536, 65791, 1<<24-1, 1<<24, 1<<32-1)
+		for i := 0; i < 40; i++ {
+			us = append(us, uint32(rng.U64())|1)
+		}
+		for _, usage := range us {
+			key := randKey(rng, et)
+			data := rng.Bytes(3 + int(usage%20))
+			var sum []byte
+			var cerr error
+			pan := Protect(func() { sum, cerr = e.GetChecksumHash(key, data, usage) })
+			v.Case(fmt.Sprintf("usage-sweep/%d/%d", ct, usage), fmt.Sprintf("usage sweep cksumtype=%d", ct))
+			op := fmt.Sprintf("cr.cksum %d %s %d %s", et, X(key), usage, X(data))
+			if mr := m.Ask(op); pan != "" || cerr != nil || mr != "ok "+X(sum) {
+				v.Violate("failing-input", fmt.Sprintf("c07:value:%d:usage-sweep", ct), "checksum differs from the value the RFC defines (independent implementation)", map[string]string{"op": op, "go": X(sum) + " " + pan, "model": mr})
+				break
+			}
+		}
+	}
+	// a key of the wrong size verifies nothing: not the checksum made with the right key, not an empty or
+	// zero checksum (an error inside the computation must not read as a match)
+	for _, ct := range cksumTypes {
+		et := cksumEtypeSpec(ct)
+		e, err := crypto.GetChksumEtype(ct)
+		if err != nil {
+			continue
+		}
+		good := randKey(rng, et)
+		data := rng.Bytes(20)
+		sum, _ := e.GetChecksumHash(good, data, 17)
+		for _, n := range []int{0, 1, 7, 8, 15, 16, 17, 23, 24, 25, 31, 32, 33, 64} {
+			if n == len(good) || ct == -138 { // rc4-hmac takes keys of any size
+				continue
+			}
+			bad := rng.Bytes(n)
+			if n > 0 && n < len(good) {
+				bad = append([]byte{}, good[:n]...)
+			}
+			for ci, c := range [][]byte{nil, {}, make([]byte, len(sum)), sum, sum[:0]} {
+				var got bool
+				pan := Protect(func() { got = e.VerifyChecksum(bad, data, c, 17) })
+				v.Case(fmt.Sprintf("wrong-size-key/%d/%d/%d", ct, n, ci), "verify wrong-size-key")
+				if got {
+					v.Violate("failing-input", fmt.Sprintf("c07:verify:wrong-size-key:%d", ct), "VerifyChecksum returned true under a key of the wrong size "+pan, map[string]string{"cksumtype": itoa(ct), "key": X(bad), "data": X(data), "cksum": X(c)})
+				}
+			}
+		}
+	}
 	c07CrossFamily(m, v, rng)
 	v.ModelAsks = m.N
 	v.Write(t)
